@@ -1,8 +1,119 @@
-import Hidi
-namespace Hidi.Props.C02
-open Hidi
+/-
+  C02 — The release of a key is pinned to its press; state actions are silent.
 
-/-- placeholder obligation replaced by the real theorems below as they are proved -/
-theorem init_not_dead (cfg : Config) : (Dev.init cfg).dead = false := rfl
+  * `C02_press_records`  : a sounding press records exactly the (note, channel) it resolved to *then*;
+  * `C02_frame_*`        : action presses / releases never touch the tracker (so the record survives any number
+                           of octave / semitone / channel / mapping changes, pair resets and panics);
+  * `C02_release_pinned` : the release of a key emits nothing but the Note Off of the recorded pair — whatever the
+                           current octave, semitone, channel and mapping are, also when the key is no longer
+                           mapped in the current mapping;
+  * `C02_actions_silent` : a press or release of a key bound to a state action emits no MIDI at all;
+  * `C02_monitor`        : the monitor evaluated on the implementation never fires on the model.
+
+  All statements are about *every* state satisfying the invariant `DInv` (every state reachable by a key-only
+  history of an accepted configuration, `reachable_dinv`).
+-/
+import HidiProofs.KeyHistories
+namespace Hidi.Props.C02
+open Hidi Hidi.Spec Hidi.EngineSim Hidi.KeyHist
+
+theorem C02_monitor (cfg : Config) (evs : List Ev) (disc : Bool)
+    (hacc : Accepted cfg = true) (hk : evs.all keyOnly = true) :
+    failsOf "C02" (checkAll (modelTrace cfg evs disc)) = [] :=
+  no_fails_of "C02" (by decide) cfg evs disc hacc hk
+
+/-- every state reached by a key-only history of an accepted configuration satisfies the invariant -/
+theorem reachable_dinv {cfg : Config} (hacc : Accepted cfg = true) {evs : List Ev} (hk : evs.all keyOnly = true) :
+    DInv cfg ((Dev.init cfg).run evs).1 := by
+  rw [← modelSteps_final]; exact (final_inv hacc hk).dinv
+
+/-- a press of a note key (not bound to an action, not completing the exit sequence): the tracker records
+    the pair the key resolves to in the state of the press -/
+theorem C02_press_records {cfg : Config} {d : Dev} (hd : DInv cfg d) (sub : Sub) (code : Code)
+    (hna : alookup code cfg.actions = none) (hsw : (kt d code 1).exitComplete = false) :
+    (d.handleKey sub code 1).1.noteTr =
+      match resolve cfg (StObs.ofDev d) (u8 cfg.vel) sub code with
+      | none => d.noteTr
+      | some (n, ch, _) => ainsert code (n, ch) d.noteTr := by
+  rw [handleKey_eq hd, hna]
+  simp only [hsw, Bool.false_eq_true, and_false, if_false, if_true]
+  rw [noteOn_eq (kt_dinv hd code 1), ofDev_kt]
+  have h7 := (kt_frame d code 1).2.2.2.2.2.2.1
+  cases resolve cfg (StObs.ofDev d) (u8 cfg.vel) sub code with
+  | none => exact h7
+  | some r => obtain ⟨n, ch, v⟩ := r; simp only [pressed, h7]
+
+/-- pressing a key bound to an action leaves the tracker alone -/
+theorem C02_frame_action_press {cfg : Config} {d : Dev} (hd : DInv cfg d) (sub : Sub) (code : Code) (a : Action)
+    (ha : alookup code cfg.actions = some a) (hsw : (kt d code 1).exitComplete = false) :
+    (d.handleKey sub code 1).1.noteTr = d.noteTr := by
+  rw [handleKey_eq hd, ha]
+  simp only [hsw, Bool.false_eq_true, and_false, if_false, if_true]
+  have := (actPress_model (kt_dinv hd code 1) a).2.1.noteTr
+  rw [this]
+  exact (kt_frame d code 1).2.2.2.2.2.2.1
+
+/-- releasing a key bound to an action leaves the tracker alone -/
+theorem C02_frame_action_release {cfg : Config} {d : Dev} (hd : DInv cfg d) (sub : Sub) (code : Code) (a : Action)
+    (ha : alookup code cfg.actions = some a) :
+    (d.handleKey sub code 0).1.noteTr = d.noteTr ∧ (d.handleKey sub code 0).2 = [] := by
+  rw [handleKey_eq hd, ha]
+  have h10 : ¬ ((0 : Int) = 1) := by omega
+  simp only [h10, false_and, if_false, if_true]
+  refine ⟨?_, trivial⟩
+  rw [(actRelease_frame (kt d code 0) a).2.2.2.2.2.2.1]
+  exact (kt_frame d code 0).2.2.2.2.2.2.1
+
+/-- **release pinned to the press**: the release of a note key emits at most the Note Off of the recorded
+    pair, and nothing when nothing is recorded; the current octave / semitone / channel / mapping do not enter -/
+theorem C02_release_pinned {cfg : Config} {d : Dev} (hd : DInv cfg d) (sub : Sub) (code : Code)
+    (hna : alookup code cfg.actions = none) :
+    (d.handleKey sub code 0).2 =
+      match alookup code d.noteTr with
+      | none => []
+      | some (n, ch) => releaseOuts cfg.mode (decide (d.count ch n = 1)) ch n := by
+  rw [handleKey_eq hd, hna]
+  have h10 : ¬ ((0 : Int) = 1) := by omega
+  simp only [h10, false_and, if_false, if_true]
+  rw [noteOff_eq (kt_dinv hd code 0)]
+  have h7 := (kt_frame d code 0).2.2.2.2.2.2.1
+  have h9 := (kt_frame d code 0).2.2.2.2.2.2.2.2.1
+  rw [h7]
+  cases alookup code d.noteTr with
+  | none => rfl
+  | some q => obtain ⟨n, ch⟩ := q; simp only [Dev.count, h9]; trivial
+
+/-- ... and every message of `releaseOuts` is the Note Off of that pair -/
+theorem C02_release_only_own_off (mode : Collision) (last : Bool) (ch n : Nat) :
+    ∀ o ∈ releaseOuts mode last ch n, o = noteOffMsg ch n := by
+  intro o ho
+  unfold releaseOuts at ho
+  cases mode <;> cases last <;> simp at ho <;> exact ho
+
+/-- **state actions are silent**: octave / semitone / channel / mapping up and down (single or completing a pair),
+    multinote and cc_learning emit nothing, on press and on release -/
+theorem C02_actions_silent {cfg : Config} {d : Dev} (hd : DInv cfg d) (sub : Sub) (code : Code) (a : Action)
+    (ha : alookup code cfg.actions = some a) (hs : isStateAction a = true) (val : Int) :
+    ∀ o ∈ (d.handleKey sub code val).2, isMidi o = false := by
+  rw [handleKey_eq hd, ha]
+  split
+  · intro o ho; simp at ho; subst ho; rfl
+  · simp only
+    split
+    · rcases (actPress_model (kt_dinv hd code val) a).2.2 with h | ⟨h, -⟩
+      · rw [h]; intro o ho; simp at ho
+      · subst h; simp [isStateAction] at hs
+    · split <;> (intro o ho; simp at ho)
+
+/-! ### non-vacuity -/
+
+def exCfg : Config :=
+  { maps := [{ name := "Piano", midi := [(("", 30), ⟨60, 0⟩)], analog := [], dz := [], defDz := [] }],
+    actions := [(59, .octaveUp)], exitSeq := [], mode := .interrupt, defOct := 0, defSemi := 0, defCh := 1,
+    defMap := 0, vel := 64, axes := [] }
+
+/-- press, octave up (silent), release: the Note Off is for note 60, not 72 -/
+example : ((Dev.init exCfg).run [.key "" 30 1, .key "" 59 1, .key "" 59 0, .key "" 30 0]).2 =
+    [[noteOnMsg 0 60 64], [], [], [noteOffMsg 0 60]] := by decide
 
 end Hidi.Props.C02
